@@ -93,6 +93,54 @@ theorem gate_dispatch_agree (b : Body) (m : String) (h : gateMethod b = some m) 
       simp only [hb, hs, if_false, Bool.false_eq_true] at h ⊢
       rw [← methodOf_client_eq_server]; exact h
 
+/-! ### the name `net/rpc` looks up is the segment the gate judged -/
+
+theorem lastSeg_fold (cs : List Char) :
+    (∀ r, afterLastDot cs = some r →
+      ∀ acc, cs.foldl (fun acc c => if c == '.' then [] else acc ++ [c]) acc = r) ∧
+    (afterLastDot cs = none →
+      ∀ acc, cs.foldl (fun acc c => if c == '.' then [] else acc ++ [c]) acc = acc ++ cs) := by
+  induction cs with
+  | nil => simp [afterLastDot]
+  | cons c cs ih =>
+    obtain ⟨ih1, ih2⟩ := ih
+    unfold afterLastDot
+    cases h : afterLastDot cs with
+    | some r' =>
+      constructor
+      · intro r hr acc
+        simp only [Option.some.injEq] at hr
+        subst hr
+        simp only [List.foldl_cons]
+        exact ih1 r' h _
+      · intro hn; simp at hn
+    | none =>
+      by_cases hc : c = '.'
+      · subst hc
+        constructor
+        · intro r hr acc
+          simp only [beq_self_eq_true, if_true, Option.some.injEq] at hr
+          subst hr
+          simp only [List.foldl_cons, beq_self_eq_true, if_true]
+          simpa using ih2 h []
+        · intro hn; simp at hn
+      · have hb : (c == '.') = false := by simpa using hc
+        constructor
+        · intro r hr; simp [hb] at hr
+        · intro _ acc
+          simp only [List.foldl_cons, hb, Bool.false_eq_true, if_false]
+          rw [ih2 h]; simp
+
+theorem rpcMethodName_eq_lastSeg (m fn : String) (h : rpcMethodName m = some fn) : fn = lastSeg m '.' := by
+  unfold rpcMethodName at h
+  cases ha : afterLastDot m.toList with
+  | none => simp [ha] at h
+  | some r =>
+    simp only [ha, Option.map_some, Option.some.injEq] at h
+    subst h
+    unfold lastSeg lastSegL
+    rw [(lastSeg_fold m.toList).1 r ha []]
+
 /-! ### a non-loopback address never has the text `127.0.0.1` -/
 
 theorem sep_prefix_unique {α : Type} (c : α) :
